@@ -1,9 +1,9 @@
 // c07: property C07 ("a sized IP pool never grows beyond its size").
-//   * correspondence of the real plugin + the real pool API handlers (PoolController.CreateOrUpdate/preAllocateIP, wired like
+//   - correspondence of the real plugin + the real pool API handlers (PoolController.CreateOrUpdate/preAllocateIP, wired like
 //     pkg/ipam/server) with the Lean model (core moves + `apiPool`, driver extension Galaxy/Drv/PluginC07.lean run by the Lean
 //     interpreter) on generated histories of up to 3 deployments x 4 pods sharing a sized pool;
-//   * monitor: after every step the pool has not grown beyond the size in force;
-//   * REAL concurrency: forced two-goroutine schedules (one side parked between its count and its allocation by an IPAM
+//   - monitor: after every step the pool has not grown beyond the size in force;
+//   - REAL concurrency: forced two-goroutine schedules (one side parked between its count and its allocation by an IPAM
 //     decorator) and free-running races of 12 filters + 3 pre-allocating pool requests.
 package main
 
@@ -41,12 +41,12 @@ func main() {
 			fmt.Fprintf(os.Stderr, "C07: %s %.1fs\n", what, time.Since(t0).Seconds())
 			t0 = time.Now()
 		}
-		b := pluginc07.RunHistories(e, "C07", "h", e.N(700, 12000), pluginc07.Histories(45), pluginc07.MonitorC07)
+		b := pluginc07.RunHistories(e, "C07", "h", e.N(1500, 30000), pluginc07.Histories(45), pluginc07.MonitorC07)
 		b.Fill(r)
 		lap("histories")
-		pluginc07.RunSchedules(e, r, "C07", e.N(12, 400))
+		pluginc07.RunSchedules(e, r, "C07", e.N(24, 600))
 		lap("forced schedules")
-		pluginc07.RunStress(e, r, "C07", e.N(24, 600))
+		pluginc07.RunStress(e, r, "C07", e.N(40, 1500))
 		lap("free-running races")
 		return r
 	})
